@@ -963,7 +963,29 @@ def r16_range_key(c, facts, rule='C02.R16'):
             c.ok(R, {'xfer_responses': 'status taken from the key of the range'})
     c.floor(R, 'status conversions in xfer_responses', n, 1)
 
+def r28_annotation_members(c, facts, rule='C02.R28'):
+    """the accessors of oal_compiler::annotation::Annotation hand the evaluator the members of an annotation value (the
+    entries of `enum`, `tags`, the pairs of `examples`): an adaptor that can drop an element (`flat_map(Value::as_str)`,
+    `filter_map`, `filter`) between the YAML sequence / mapping and the returned collection loses every member that is not
+    of the expected scalar type without a diagnostic - `tags: [orders, 2024]` is emitted as `[orders]`."""
+    R = c.rule(rule, 'ANNOTATION-MEMBERS: the accessors of Annotation return every member of a sequence or mapping value (or fail): no element-dropping adaptor between the YAML value and the collection handed to the evaluator')
+    n = 0
+    for fn in sorted(facts.fns.values(), key=lambda f: f.qname):
+        if not fn.mir or not fn.qname.startswith('oal_compiler::annotation::Annotation::get_'):
+            continue
+        home = fn.qname.split('::{closure')[0].split('::')[-1]
+        if fn.kind != 'Closure':
+            n += 1
+        drops = sorted({P.strip(callee_of(t)['def']).split('::')[-1] for b, t in fn.calls() if callee_of(t) and P.strip(callee_of(t)['def']).split('::')[-1] in ('flat_map', 'filter_map', 'filter', 'flatten', 'take_while', 'map_while', 'skip_while') and 'Iterator' in P.strip(callee_of(t)['def'])})
+        for d in drops:
+            c.bad(R, '%s:members-filtered:%s' % (home, d), 'Annotation::%s passes the members of the annotation value through %s: a member that is not of the expected type is dropped without a diagnostic' % (home, d), fn=fn.qname, adaptor=d)
+        if not drops and fn.kind != 'Closure':
+            c.ok(R, {'fn': fn.qname, 'element-dropping adaptors': 'none'})
+    c.floor(R, 'accessors of Annotation', n, 7)
+
+
 def run(c, facts):
+    c.run(r28_annotation_members, facts)
     import grammar
     c.run(lambda c: grammar.agree(c, facts, 'C02.R14', floor=12))
     c.run(r18_per_content, facts)
@@ -1543,3 +1565,6 @@ def r8_ref_transparent(c, facts, rule='C02.R8'):
         else:
             c.bad(R, '%s:reference-not-unwrapped' % name, '%s does not unwrap Expr::Reference by recursing into the referenced value: a named (@) or recursive value loses what the cast would have kept of the value itself' % q, **inst)
     c.floor(R, 'casts that must unwrap references', n, 8)
+
+
+EXPLANATION += ' (R28) ANNOTATION-MEMBERS: the accessors of Annotation pass the members of a sequence / mapping value through no element-dropping adaptor (two known findings: get_enum, get_props).'
